@@ -15,6 +15,10 @@ import vlib
 from checklib import Suite
 
 
+def zlit(v):
+    return "(%d)" % v if v < 0 else "%d" % v
+
+
 def coq_op(o):
     n = o[0]
     simple = {"start": "SStart", "listen": "SListen", "unlisten": "SUnlisten", "peer_accept": "SAccept",
@@ -58,6 +62,18 @@ def coq_op(o):
         return "(SBurst %d)" % o[1]
     if n == "peer_addr":
         return "(SAddr %d)" % o[1]
+    if n in ("u_count", "u_peer", "u_addr", "u_wait_conn", "u_wait_seen", "u_conns", "u_listed", "u_release", "u_close"):
+        return "(%s %s)" % ({"u_count": "SUCount", "u_peer": "SUPeer", "u_addr": "SUAddr", "u_wait_conn": "SUWaitConn",
+                             "u_wait_seen": "SUWaitSeen", "u_conns": "SUConns", "u_listed": "SUListed",
+                             "u_release": "SURelease", "u_close": "SUClose"}[n], zlit(o[1]))
+    if n in ("u_inv", "u_getdata"):
+        return "(%s %s %d)" % ("SUInv" if n == "u_inv" else "SUGetData", zlit(o[1]), o[2])
+    if n == "wait_scanning":
+        return "(SWaitScan %s)" % ("true" if o[1] else "false")
+    if n == "broadcast":
+        return "(SBroadcast %d)" % o[1]
+    if n == "counts_u":
+        return "SCountsU"
     if n == "hold":
         return "(SHold %d)" % o[1]
     if n == "release":
@@ -79,6 +95,7 @@ class Gen:
         self.tip = 0       # blocks served
         self.ready = False
         self.rel = []      # relevant txs delivered so far
+        self.untrusted = False   # UntrustedCount > 0: the monitor goroutine runs too (not in the thread counts of the model)
 
     def add(self, *o):
         self.ops.append(list(o))
@@ -88,7 +105,7 @@ class Gen:
         self.add("peer_version")
         self.sent = 0
         self.ready = False
-        if self.r.chance(1, 4):
+        if self.r.chance(1, 4) and not self.untrusted:
             self.add("counts")
 
     def headers(self, n):
@@ -329,6 +346,121 @@ def scenario(rng, kind):
             t = cycle()
             g.add("peer_getdata", t)
         g.add("stop")
+    elif kind in ("scanstop", "scanclose", "scanquiet", "scanlong"):
+        # the monitor of the untrusted nodes (UntrustedCount > 0).  scanstop / scanclose: one never-checked address
+        # is stored, so scan() dials it and keeps its ~10 s handshake window open; Stop, or the loss of the trusted
+        # connection (restart) and then Stop, at several offsets INSIDE the window.  scanquiet: no unchecked address
+        # (scan returns at once).  scanlong: the window is waited out (also with a broadcast tx made pending inside
+        # it, which keeps later passes from scanning; also with an address told by the trusted peer right after the
+        # scan, which the next pass scans), Stop / loss OUTSIDE the window.
+        g.untrusted = True
+        g.add("u_count", r.range(1, 2))
+        if kind != "scanquiet":
+            g.add("u_peer", 2)
+        told = kind == "scanlong" and r.chance(1, 3)
+        if told:
+            g.add("u_peer", 5)
+        g.add("start")
+        g.handshake()
+        if r.chance(1, 3):
+            g.sync_some(3)
+        g.insync()
+        if kind == "scanquiet":
+            g.add("sleep", r.choice([0, 200, 700, 1200]))
+        else:
+            g.add("wait_scanning", 1, 3000)
+            if r.chance(1, 2):
+                g.add("u_wait_seen", 0, 3000)
+            if kind == "scanlong":
+                pending = (not told) and r.chance(1, 2)
+                if pending:
+                    g.ntx += 1
+                    g.add("broadcast", g.ntx)
+                g.add("wait_scanning", 0, 13000)
+                if told:
+                    g.add("u_addr", 1)
+                    g.add("u_wait_seen", 1, 6000)
+                elif not pending:
+                    g.add("u_wait_conn", 0, 4000)
+                    g.add("u_listed", 0)
+                g.add("sleep", r.choice([0, 300, 2300]))
+            else:
+                g.add("sleep", r.choice([0, 150, 400, 900, 1800]))
+        if kind == "scanclose" or (kind in ("scanquiet", "scanlong") and r.chance(1, 3)):
+            g.add(r.choice(["peer_close", "peer_reset"]))
+            stage = r.range(0, 3)
+            if stage >= 1:
+                g.add("peer_accept")
+                g.sent = 0
+            if stage >= 2:
+                g.add("peer_version")
+            if stage >= 3:
+                g.insync()
+        g.stop_tail()
+        g.add("counts_u")
+    elif kind in ("ulist", "slowdial", "udrop", "udialdrop"):
+        # untrusted peers the monitor connects: every connected one is in the node's list, so the clean-up after a
+        # block reaches its tracker.  The trusted peer announces t (asked, not delivered), the untrusted peer
+        # announces it too (remembered); either the window passes (the untrusted peer is asked at its next
+        # activity) or a block confirms t first (it is never asked).
+        # slowdial: the peer's dial takes ~3 s (listen backlog 0), longer than the monitor's 2 s period.
+        # udrop: two good peers, one wanted: the connected one closes, the other one is connected.
+        # udialdrop: two wanted; the slow one closes its listener while the node is still dialling.
+        g.untrusted = True
+        if kind == "udialdrop":
+            g.add("u_count", 2)
+            g.add("u_peer", 3)
+            g.add("u_peer", 1)
+        else:
+            g.add("u_count", 1)
+            g.add("u_peer", 3 if kind == "slowdial" else 1)
+            if kind == "udrop":
+                g.add("u_peer", 1)
+        g.add("start")
+        g.handshake()
+        if r.chance(1, 3):
+            g.sync_some(3)
+        g.insync()
+        who = 0
+        if kind == "slowdial":
+            # the node's SYNs: at the dial (<= 0.5 s after in sync), 1 s later, 3 s later: releasing the listener between
+            # the second and the third makes the dial take 3 s, so the monitor's next pass (2 s) falls inside it
+            g.add("sleep", r.choice([1700, 2000, 2300]))
+            g.add("u_release", 0)
+            g.add("u_wait_conn", 0, 7000)
+        elif kind == "udrop":
+            who = -1
+            g.add("u_wait_conn", -1, 4000)
+            g.add("u_listed", -1)
+            g.add("u_close", -1)
+            g.add("u_wait_conn", -1, 7000)
+        elif kind == "udialdrop":
+            who = 1
+            g.add("u_wait_conn", 1, 4000)
+            g.add("sleep", r.choice([100, 500]))
+            g.add("u_close", 0)
+            g.add("sleep", 2600)
+            g.add("u_wait_conn", 1, 1000)
+            g.add("u_listed", 0)
+        else:
+            g.add("u_wait_conn", 0, 4000)
+        g.add("u_listed", who)
+        for _ in range(r.range(1, 2)):
+            g.ntx += 1
+            t = g.ntx
+            g.add("peer_inv", t)
+            g.add("u_inv", who, t)
+            if r.chance(1, 2) or kind == "slowdial":
+                g.add("peer_txblock", t, 1)      # (the announcement made it a relevant tx of the scripted universe)
+                g.tip += 1
+                g.add("tx_age", r.choice([4, 60]))
+                g.add("u_getdata", who, t)
+            else:
+                g.add("tx_age", r.choice([4, 10]))
+                g.add("u_getdata", who, t)
+                g.add("u_getdata", who, t)
+        g.stop_tail()
+        g.add("counts_u")
     elif kind == "apifill":
         # a concurrent caller of the public API: a relevant tx sits in a held handler / fetcher call (nothing is
         # taken off the tx channel), the application fills the 100 slots through Node.HandleTx, call 101 waits for
@@ -461,11 +593,14 @@ KINDS_QUICK = ["connecting", "connecting", "handshake", "handshake", "handshake"
                "afterloss", "afterloss", "afterloss", "reconnecting", "reconnected", "reconnected", "silence",
                "stoprestarting", "stoprestarting", "stoprestarting", "apifill", "apifill", "apicalls",
                "persist_inv", "persist_inv", "persist_api", "persist_api", "blockfail", "blockfail", "blockfail",
-               "txblocks", "backpressure"]
+               "txblocks", "backpressure",
+               "scanstop", "scanclose", "scanquiet", "ulist", "slowdial", "udrop", "udialdrop"]
 WEIGHTS = [("connecting", 2), ("handshake", 3), ("headers", 3), ("midblocks", 4), ("heldblock", 3), ("insync", 5),
            ("heldtx", 3), ("abort", 2), ("afterloss", 5), ("reconnecting", 2), ("reconnected", 5), ("silence", 1), ("stoprestarting", 4), ("apifill", 3),
            ("apicalls", 2), ("persist_inv", 3), ("persist_api", 3), ("blockfail", 4),
-           ("txblocks", 2), ("backpressure", 2)]
+           ("txblocks", 2), ("backpressure", 2),
+           ("scanstop", 3), ("scanclose", 3), ("scanquiet", 1), ("scanlong", 2), ("ulist", 2), ("slowdial", 2), ("udrop", 2),
+           ("udialdrop", 1)]
 
 
 UOPS = {"ustart": "UStart", "ufill": "UFill", "ureset": "UReset", "ustop": "UStop", "ucounts": "UCounts",
@@ -617,6 +752,14 @@ def tracker_reconnect_scenarios(tier, rng, workdir):
                        19850, 3, 12)
 
 
+def untrusted_list_scenarios(tier, rng, workdir):
+    """C14 on the real run loop with the REAL monitor of the untrusted nodes, for the `extra` hook of gen/c14.py: the
+    monitor dials scripted untrusted peers (one of them slowly: the dial outlasts the monitor's 2 s period; one dropped
+    and another one connected); every connected peer must be in the node's list (914) and must not be asked for an
+    announced tx that a processed block confirmed (913).  Failure records carry suite = "shutdown_ulist"."""
+    return _side_suite("shutdown_ulist", ["slowdial", "ulist", "udrop", "slowdial", "udialdrop"], tier, rng, workdir, 19870, 2, 10)
+
+
 def keyfn(rec):
     if rec.get("suite") == "untrusted":
         ops = rec.get("ops", [])
@@ -654,6 +797,9 @@ def keyfn(rec):
         shape = "txblock-" + shape
     if opn == "stored" and not insync:
         shape = "not-in-sync-" + shape
+    kinds = [o[1] for o in ops if o[0] == "u_peer"]
+    if any(o[0] == "u_count" for o in ops):
+        shape = "untrusted-%s%s" % ("slow-dial-" if 3 in kinds else ("scan-window-" if any(o[0] == "wait_scanning" and o[1] for o in before) else ""), shape)
     return "shutdown:%s:%s:%s:%s" % (rec.get("checker"), code, opn, shape)
 
 
@@ -667,16 +813,17 @@ SPEC = {
         "axioms: none declared; Print Assumptions recorded under print_assumptions",
         "hand-written model coq/model/Shutdown.v of Node.Run's phased shutdown (run loop, goroutine kinds with their blocking points, channels with mutex, counters incremented inside the goroutines, save phase, restart loop); tied to the code by the correspondence run: the real Node.Run against a scripted peer on a loopback TCP socket, every scenario's observations equal the scenario model's (which drives the same transition system) - a coarse tie: scenarios are deterministic schedules, the theorems quantify over all interleavings",
         "the link to C02 (announce contiguous after reconnect) reuses coq/model/Sync.v and its correspondence (bin/check C02)",
-        "harness: recording client.Handler with a gate, output fetcher with a gate, copying store, scripted peer using tokenized/pkg wire",
+        "harness: recording client.Handler with a gate, output fetcher with a gate, copying store, scripted trusted peer and scripted untrusted peers (shutdown_upeers.go) using tokenized/pkg wire; a slow dial is a raw listen socket with backlog 0 filled by a dummy connection (Linux)",
     ],
     "assumptions": [
         "Go scheduler, TCP and timers are not in the model; fairness hypothesis of stop_terminates: every enabled step of the run loop or of a goroutine eventually happens, and handler callbacks, storage calls, fetcher calls and conn.Close return",
         "hypothesis `prompt` of the safety theorems (D27): a thread counter is never read as zero while a goroutine started for that class has not yet executed its first statement (the increment); needs a goroutine unscheduled for > 100 ms; not reproducible without a scheduler hook, not claimed as a finding (C19_d27_refuted is the model witness)",
         "D26 (processUnconfirmedTxs left its loop on an error while monitorIncoming waited on the full tx channel: Stop never returned) was replayed against the real code and repaired in /repo 99e17c5; the termination theorems are for the repaired consumer (model parameter daf = true) without a hypothesis about it; C19_d26_refuted is the theorem about the old consumer (daf = false); corpus/C19/d26_consumer_abort_full_channel.json is the regression test",
-        "one untrusted node stands for all; application calls other than Stop (SendTx, BroadcastTx, HandleTx) are outside the model; the Node.Run scenarios run with UntrustedCount = 0; the untrusted side is tied separately: a real UntrustedNode (real Run / monitorIncoming / sendOutgoing / Stop) over loopback TCP against a peer that never reads and keeps pinging until the 100-slot outgoing queue is full and the reader waits inside Add (component untrusted); its Run is the same phased protocol in small, so its scenarios are run on the same transition system (MI, RT, SO and the outgoing channel)",
-        "bounded time is checked as: Stop returns within 4 s (the phase loops poll every 100 ms; typical 0.4 - 0.7 s); net.Dial to a blackholed address is outside (connect is a step that returns)",
+        "in the system of all interleavings one untrusted node stands for all and monitorUntrustedNodes is one thread; its inside (untrustedLock, the list, scan window and flag, dialling / active / done nodes, CleanupBlock over the list) is the second transition system `mstep` of the same file with its own theorems (C19_untrusted_*) - the two are not composed: the run loop waits for MU in the first, MU ends in the second; application calls other than Stop and HandleTx (SendTx; BroadcastTx only as 'a broadcast tx is pending') are outside the model; most Node.Run scenarios run with UntrustedCount = 0, the untrusted-monitor scenarios with 1-2 and scripted untrusted peers on loopback listeners whose addresses are stored in the peer repository beforehand (good / never checked / slow dial over a listen socket with backlog 0 / told later by an addr message); the random choice among stored addresses is not modelled (scenarios keep it immaterial); a single UntrustedNode is also tied separately: a real UntrustedNode (real Run / monitorIncoming / sendOutgoing / Stop) over loopback TCP against a peer that never reads and keeps pinging until the 100-slot outgoing queue is full and the reader waits inside Add (component untrusted); its Run is the same phased protocol in small, so its scenarios are run on the same transition system (MI, RT, SO and the outgoing channel)",
+        "bounded time is checked as: Stop returns within 4 s (the phase loops poll every 100 ms; typical 0.4 - 0.7 s); net.Dial to a blackholed address is outside (connect is a step that returns) - this includes the dial of an untrusted node (15 s time-out): scenarios do not call Stop while a slow dial is still hanging",
+        "a goroutine started for an untrusted node takes the node's lock before the monitor's next pass 2 s later (otherwise IsActive would report a node that has not started yet as inactive): scheduling hypothesis of the same kind as `prompt`, not exercised",
     ],
-    "rule": "scenarios: stop while connecting (peer not listening), during the handshake (before accept / before version / after version), during header sync, in the middle of the block download (also with the HandleHeaders callback of a block held across the stop request), in sync with tx / addr / ping traffic (also with HandleTx or the output fetcher held), right after close / reset of the trusted connection at 0-750 ms, Stop placed exactly inside the shutdown that precedes the reconnect (flags polled: needsRestart, stopping, connection cleared), during the reconnect loop, after reconnection at each handshake stage, peer silence with aged time-outs, consumer abort with and without a full channel; a block with a new relevant tx whose output fetch fails in the middle of ProcessBlock, then Stop or a lost connection and Stop; 101-150 distinct relevant txs under back-pressure (a handler held) all delivered; a concurrent caller of the public API (Node.HandleTx) filling the tx channel while a handler is held, the 101st call waiting for room across the stop request; Stop while NOT in sync with a delivered relevant tx (in sync cleared by a block inventory; tx fed through HandleTx during the initial sync) followed by a restart on the same storage and re-announcement; untrusted node with its outgoing queue full / after a reset by the peer, then Stop; each Node.Run scenario ends with quiet (no callback after Stop returned), stored (fresh repositories loaded from the store vs final in-memory data vs announcements), announced (heights contiguous, none twice); distinct = distinct (cfg, ops)",
+    "rule": "scenarios: stop while connecting (peer not listening), during the handshake (before accept / before version / after version), during header sync, in the middle of the block download (also with the HandleHeaders callback of a block held across the stop request), in sync with tx / addr / ping traffic (also with HandleTx or the output fetcher held), right after close / reset of the trusted connection at 0-750 ms, Stop placed exactly inside the shutdown that precedes the reconnect (flags polled: needsRestart, stopping, connection cleared), during the reconnect loop, after reconnection at each handshake stage, peer silence with aged time-outs, consumer abort with and without a full channel; a block with a new relevant tx whose output fetch fails in the middle of ProcessBlock, then Stop or a lost connection and Stop; 101-150 distinct relevant txs under back-pressure (a handler held) all delivered; a concurrent caller of the public API (Node.HandleTx) filling the tx channel while a handler is held, the 101st call waiting for room across the stop request; Stop while NOT in sync with a delivered relevant tx (in sync cleared by a block inventory; tx fed through HandleTx during the initial sync) followed by a restart on the same storage and re-announcement; untrusted node with its outgoing queue full / after a reset by the peer, then Stop; the real monitor of the untrusted nodes (UntrustedCount 1-2): Stop, or loss of the trusted connection and Stop, at 0-1.8 s inside scan()'s ~10 s handshake window (one never-checked address stored), with no unchecked address, and (thorough) after the window was waited out - also with a broadcast tx made pending inside the window and with an address told by the trusted peer right after the scan; untrusted peers connected by the monitor (a good one; one whose dial takes 3 s, longer than the monitor's period; the connected one of two closing so that the other is connected; a slow one closing its listener during the dial): each connected peer is listed (914), announces a tx the trusted peer announced first, and is asked for it after the window / never asked once a block confirmed it (913), then Stop and no untrusted goroutine left; each Node.Run scenario ends with quiet (no callback after Stop returned), stored (fresh repositories loaded from the store vs final in-memory data vs announcements), announced (heights contiguous, none twice); distinct = distinct (cfg, ops)",
 }
 
 if __name__ == "__main__":
